@@ -454,6 +454,32 @@ def r4_result(ctx, chk, rule="C07.4"):
     elif isinstance(compr, ast.BinOp) and isinstance(compr.op, ast.Sub) and isinstance(compr.left, ast.Name) \
             and compr.left.id == s.visited_name and _is_set_of(compr.right, s.finals, cfg, ret):
         chk.ok(rule, f.where(compr), "result = %s - set(%s)" % (s.visited_name, s.finals))
+    elif (isinstance(compr, ast.Name) and compr.id == s.visited_name) or \
+            (isinstance(compr, ast.Call) and call_name(compr) in ("list", "sorted") and compr.args and isinstance(compr.args[0], ast.Name)
+             and compr.args[0].id == s.visited_name):
+        # no filter at the result: the final states must have been removed from the visited collection itself,
+        # after the last search that can add to it
+        removals = []
+        for n in cfg.statements():
+            if isinstance(n, ast.Expr) and isinstance(n.value, ast.Call) and isinstance(n.value.func, ast.Attribute) \
+                    and isinstance(n.value.func.value, ast.Name) and n.value.func.value.id == s.visited_name \
+                    and n.value.func.attr in ("discard", "remove", "difference_update"):
+                removals.append(n)
+            if isinstance(n, ast.AugAssign) and isinstance(n.op, ast.Sub) and isinstance(n.target, ast.Name) and n.target.id == s.visited_name:
+                removals.append(n)
+        if not removals:
+            chk.violation(rule, f.where(ret), "final states are not filtered out of the result: value iteration will overwrite their probability 1",
+                          expected="[x for x in %s if x not in %s]" % (s.visited_name, s.finals), found=src(val), construct="reverse_dfs result filter missing")
+            return
+        search_stmt = cfg.stmt_of(s.search_call) if s.search_call is not None else None
+        for r in removals:
+            if search_stmt is not None and (cfg.path_exists(r, search_stmt) or r is search_stmt):
+                chk.violation(rule, f.where(r), "`%s` removes a final state from the visited collection while later searches can still add to it: "
+                              "a final state that is a predecessor of a later root is re-added and stays in the result" % norm_stmt(r),
+                              expected="finals removed after the last search (or filtered at the result)", found=norm_stmt(r),
+                              construct="reverse_dfs final removed inside the root loop")
+                return
+        chk.undecided(rule, f.where(ret), "final states are removed from the visited collection by `%s`; coverage of all finals not established" % norm_stmt(removals[0]))
     else:
         chk.undecided(rule, f.where(ret), "result construction `%s` not recognised as a filter of the visited collection" % src(compr))
 
